@@ -65,14 +65,3 @@ Definition tab_value (T : Z -> R) (f : trigfn) (i : Z) : R :=
   end.
 Definition sin12 (i : Z) : R := sin (IZR i * PI / 12).
 
-(* value of a constructor result, given the value [r] of decompositions (through [kv]), the
-   table [T] and a valuation [av] of the arguments of inverse functions *)
-Definition tres_den (kv : expr -> R) (T : Z -> R) (av : expr -> R) (t : tres) : option R :=
-  match t with
-  | RVal z => Some (IZR z)
-  | RArg s a => Some (IZR s * av a)
-  | RRecip s a => Some (IZR s * (1 / av a))
-  | RTab s f i => Some (IZR s * tab_value T f i)
-  | RFun s f l => Some (IZR s * F f (lin_den kv l))
-  | _ => None
-  end.
